@@ -5,6 +5,7 @@ import (
 	"fmt"
 	"os"
 	"reflect"
+	"slices"
 	"sort"
 	"strings"
 	"sync"
@@ -190,8 +191,18 @@ func runChainCase(r *lib.Run, idx int) {
 		} else if idx%4 < 2 {
 			node.Restart(false)
 		}
+		othersOf := func(i int) []uint64 {
+			var o []uint64
+			for j := k - 1; j >= 0; j-- { // biggest blocks are usually the later ones
+				if j != i {
+					o = append(o, uint64(j))
+				}
+			}
+			return o
+		}
 		e := &env{r: r, idx: idx, layer: "chain", dbn: dbn, cfg: cfg, st: st, bc: node.BC}
 		for i := range exp {
+			e.others = othersOf(i)
 			e.checkBlock(exp[i], i == k-1)
 			e.hashIdentity(exp[i])
 		}
@@ -200,6 +211,18 @@ func runChainCase(r *lib.Run, idx int) {
 		e.checkClasses(c)
 		r.Eval(e.evals)
 		r.Count("chain/comparisons/"+dbn, e.evals)
+		// the same matrix through the poisoning reader (a fresh node over the wrapped store)
+		ps := newPoisonStore(st)
+		pe := &env{r: r, idx: idx, layer: "chain", dbn: dbn + "+poison", cfg: cfg, st: ps, bc: chain.NewNode(ps, newState).BC, poison: true}
+		for i := range exp {
+			pe.others = othersOf(i)
+			pe.checkBlock(exp[i], i == k-1)
+		}
+		pe.checkClasses(c)
+		r.Eval(pe.evals)
+		r.Count("chain/comparisons/"+dbn+"+poison", pe.evals)
+		r.Count("poison/get_callbacks_poisoned", int(ps.gets.Load()))
+		r.Count("poison/bytes_poisoned", int(ps.poisoned.Load()))
 		if reopen != nil {
 			st.Close()
 		}
@@ -254,9 +277,25 @@ type shapeCase struct {
 	L1Head  *core.L1Head
 }
 
-func genShapeCase(s *shaper) *shapeCase {
+func genShapeCase(s *shaper, twins int) *shapeCase {
 	r := s.rng
 	sc := &shapeCase{}
+	defer func() {
+		// twins sit at consecutive numbers above everything else (kept in ascending order)
+		base := uint64(1<<63) + 1000
+		var rest, top []*shapedBlock
+		for _, b := range sc.Blocks {
+			if b.Header.Number >= base {
+				top = append(top, b)
+			} else {
+				rest = append(rest, b)
+			}
+		}
+		for i := 0; i < twins; i++ {
+			rest = append(rest, s.twinBlock(base-uint64(twins)+uint64(i)))
+		}
+		sc.Blocks = append(rest, top...)
+	}()
 	nums := map[uint64]bool{}
 	want := 3 + r.IntN(3)
 	for len(nums) < want {
@@ -403,6 +442,14 @@ func (e *env) checkShapeCase(sc, pristine *shapeCase, digests []blockDigest) {
 	st := e.st
 	for i, b := range pristine.Blocks {
 		x := &expBlock{Header: b.Header, Txs: b.Txs, Receipts: b.Receipts, SU: b.SU, Commitments: b.Commitments, Desc: b.Desc}
+		e.others = e.others[:0]
+		for _, twinsFirst := range []bool{true, false} {
+			for j, o := range pristine.Blocks {
+				if j != i && o.Twin == twinsFirst {
+					e.others = append(e.others, o.Header.Number)
+				}
+			}
+		}
 		e.checkBlock(x, i == len(pristine.Blocks)-1)
 		// oracle (4): every protocol hash over the read-back records equals the hash over the stored records
 		blk, err1 := core.GetBlockByNumber(st, b.Header.Number)
@@ -435,12 +482,18 @@ func (e *env) checkShapeCase(sc, pristine *shapeCase, digests []blockDigest) {
 	// full scan of the block-transactions bucket: exactly the stored blocks, in key order of the codec
 	e.desc = "scan of BlockTransactions bucket"
 	seen := 0
+	type scanned struct {
+		key []byte
+		val core.BlockTransactions
+	}
+	var kept []scanned
 	for ent, err := range core.BlockTransactionsBucket.Prefix().Scan(st) {
 		if err != nil {
 			e.same("BlockTransactionsBucket.Prefix().Scan", "scan", nil, nil, err)
 			break
 		}
 		seen++
+		kept = append(kept, scanned{slices.Clone(ent.Key), ent.Value})
 		var match *shapedBlock
 		for _, b := range pristine.Blocks {
 			if bytes.Equal(ent.Key, core.BlockTransactionsBucket.Key(mustCBOR(b.Header.Number))) {
@@ -458,6 +511,18 @@ func (e *env) checkShapeCase(sc, pristine *shapeCase, digests []blockDigest) {
 		e.same("BlockTransactionsBucket.Prefix().Scan", "Receipts", nonNil(match.Receipts), rcs, err)
 	}
 	e.same("BlockTransactionsBucket.Prefix().Scan", "entries", len(pristine.Blocks), seen, nil)
+	// the yielded values are still good after the scan moved on and ended (Entry.Value must own its bytes)
+	e.interleave()
+	for _, k := range kept {
+		for _, b := range pristine.Blocks {
+			if bytes.Equal(k.key, core.BlockTransactionsBucket.Key(mustCBOR(b.Header.Number))) {
+				txs, err := k.val.Transactions().All()
+				e.deferred("BlockTransactionsBucket.Prefix().Scan", "Transactions", nonNil(b.Txs), txs, err)
+				rcs, err := k.val.Receipts().All()
+				e.deferred("BlockTransactionsBucket.Prefix().Scan", "Receipts", nonNil(b.Receipts), rcs, err)
+			}
+		}
+	}
 	for _, b := range pristine.Blocks {
 		n := 0
 		for ent, err := range core.BlockTransactionsBucket.Prefix().Add(b.Header.Number).Scan(st) {
@@ -551,7 +616,11 @@ var (
 func runShapeCase(r *lib.Run, idx int) {
 	rng := lib.Rng("C07/shape", uint64(idx))
 	s := newShaper(rng)
-	sc := genShapeCase(s)
+	twins := 0
+	if idx%16 == 0 { // these cases also run on pebblev2
+		twins = 3
+	}
+	sc := genShapeCase(s, twins)
 	pristine := chain.DeepCopy(sc)
 	// digests are taken from a third copy: StateDiff.Hash() sorts DeclaredV0Classes in place
 	digests := make([]blockDigest, len(sc.Blocks))
@@ -590,6 +659,13 @@ func runShapeCase(r *lib.Run, idx int) {
 		e.checkShapeCase(sc, pristine, digests)
 		r.Eval(e.evals)
 		r.Count("shape/comparisons/"+dbn, e.evals)
+		ps := newPoisonStore(st)
+		pe := &env{r: r, idx: idx, layer: "shape", dbn: dbn + "+poison", cfg: "direct core.Write*", st: ps, bc: blockchain.New(ps, net), poison: true}
+		pe.checkShapeCase(sc, pristine, digests)
+		r.Eval(pe.evals)
+		r.Count("shape/comparisons/"+dbn+"+poison", pe.evals)
+		r.Count("poison/get_callbacks_poisoned", int(ps.gets.Load()))
+		r.Count("poison/bytes_poisoned", int(ps.poisoned.Load()))
 		if reopen != nil {
 			st.Close()
 		}
@@ -625,6 +701,9 @@ func runShapeCase(r *lib.Run, idx int) {
 		}
 		if b.Safe {
 			r.Count("shape/blocks_with_block_hash_identity_evaluated", 1)
+		}
+		if b.Twin {
+			r.Count("shape/twin_fixed_size_blocks", 1)
 		}
 		if strings.Contains(b.Desc, "huge=true") {
 			r.Count("shape/huge_single_tx_blocks", 1)
